@@ -41,6 +41,7 @@ type Report struct {
 	Unsimulated map[string]int `json:"unsimulated_io_selectors"`
 	Warnings    []string       `json:"warnings"`
 	TypeErrors  int            `json:"type_errors"`
+	Ticks       int            `json:"loop_ticks"`
 	Files       int            `json:"files"`
 }
 
@@ -346,7 +347,10 @@ func (fi *fileInstr) run() (bool, error) {
 				c.InsertBefore(yieldStmt(pre))
 			}
 			fi.changed = true
+		case *ast.ForStmt:
+			fi.addTick(x.Body)
 		case *ast.RangeStmt:
+			fi.addTick(x.Body)
 			if fi.isChan(x.X) && inList(c) {
 				id := fi.site(x, "range-chan")
 				c.InsertBefore(yieldStmt(id))
@@ -478,6 +482,17 @@ func (fi *fileInstr) run() (bool, error) {
 		}
 	}
 	return true, nil
+}
+
+// addTick puts simrt.Tick() at the head of a loop body (fuel accounting).
+func (fi *fileInstr) addTick(b *ast.BlockStmt) {
+	if b == nil {
+		return
+	}
+	tick := &ast.ExprStmt{X: &ast.CallExpr{Fun: &ast.SelectorExpr{X: ast.NewIdent("simrt"), Sel: ast.NewIdent("Tick")}}}
+	b.List = append([]ast.Stmt{tick}, b.List...)
+	fi.changed = true
+	fi.in.rep.Ticks++
 }
 
 func usesName(f *ast.File, name string) bool {
